@@ -315,25 +315,26 @@ def _oracle(w, drv, sc, model, updates, out):
                             cause=_kept_slot_cause(hist, k, lo, delay, tq, first_deadline))
                     continue
 
-                # some chain q1 < q2 < ... of queries for the type must fit the 10 % steps, each <= delay late
-                # (queries for the same type may belong to other records, so every admissible anchor is tried)
-                fail = [None]
-
-                def chain(qk, depth=0):
-                    nxt_lo = qk + 0.1 * ttl
-                    if nxt_lo >= expiry - delay - SLACK or nxt_lo + delay + SLACK >= seg_end or depth > 12:
-                        return True
-                    cands = [t for t in tq if nxt_lo - SLACK <= t <= nxt_lo + delay + SLACK]
-                    if not cands:
-                        fail[0] = (qk, nxt_lo)
-                        return False
-                    return any(chain(t, depth + 1) for t in cands)
-
-                if not any(chain(q1) for q1 in firsts):
-                    qk, nxt_lo = fail[0]
-                    out.add("C10.no-rescue-query", f"browser {b['id']}: PTR {ident[3]} (ttl {ttl}, current from "
-                            f"{w.rel(c):.3f}) no rescue query in [{w.rel(nxt_lo):.3f}, {w.rel(nxt_lo + delay):.3f}] after "
-                            f"the one at {w.rel(qk):.3f}; queries for the type at {[round(w.rel(t), 3) for t in tq][-8:]}")
+                # "... and again at further 10 percent steps until it expires (each at most the configured inter-query
+                # delay late)": the steps are fractions of the record's own TTL - 85 %, 95 % - not of the moment the
+                # previous query happened to go out (lateness must not add up, third audit, D59). Any query for the
+                # type inside a step's window counts, whichever record it was sent for
+                kstep = 1
+                while True:
+                    lo_k = c + (0.75 + 0.1 * kstep) * ttl
+                    dl_k = lo_k + delay
+                    if lo_k < t_startup_end + delay:
+                        dl_k = max(dl_k, t_startup_end + 2 * delay)
+                    if dl_k + SLACK >= min(seg_end, expiry) or kstep > 2:
+                        break
+                    # (a kept refresh slot may lie up to `delay` before the record's own 75 % point, and its steps with it)
+                    if not any(lo_k - delay - SLACK <= t <= dl_k + SLACK for t in tq):
+                        out.add("C10.no-rescue-query", f"browser {b['id']}: PTR {ident[3]} (ttl {ttl}, current from "
+                                f"{w.rel(c):.3f}) no rescue query in [{w.rel(lo_k - delay):.3f}, {w.rel(dl_k):.3f}] ({75 + 10 * kstep} % of "
+                                f"its TTL, at most {delay:g} s late); queries for the type at "
+                                f"{[round(w.rel(t), 3) for t in tq][-8:]}", step=kstep)
+                        break
+                    kstep += 1
                 if seg_end == expiry:
                     nexp += 1
     out.nontrivial = (nexp + nrefreshed) >= 1 and len(queries) >= 5
